@@ -1,81 +1,3 @@
-/- GENERATED by harness/extract_circuit.py from /repo/src — do not edit. -/
-import CC.Model.CircuitBase
-namespace CC.Gen
-open CC
-
-/-- every constructor function of `Circuit/components.py`, in source order -/
-def ctorSpecs : List CtorSpec := [
-  { fn := "resistor", kind := "resistor", idDefault := none, nodesDefault := none,
-    params := [("R", .real, none)],
-    guards := [⟨"R", .lt, (0 : Rat), "ValueError"⟩],
-    values := [("R", .param "R")] },
-  { fn := "conductance", kind := "conductance", idDefault := none, nodesDefault := none,
-    params := [("G", .real, none)],
-    guards := [⟨"G", .lt, (0 : Rat), "ValueError"⟩],
-    values := [("G", .param "G")] },
-  { fn := "capacitor", kind := "capacitor", idDefault := none, nodesDefault := none,
-    params := [("C", .real, none)],
-    guards := [⟨"C", .lt, (0 : Rat), "ValueError"⟩],
-    values := [("C", .param "C")] },
-  { fn := "inductance", kind := "inductance", idDefault := none, nodesDefault := none,
-    params := [("L", .real, none)],
-    guards := [⟨"L", .lt, (0 : Rat), "ValueError"⟩],
-    values := [("L", .param "L")] },
-  { fn := "impedance", kind := "impedance", idDefault := none, nodesDefault := none,
-    params := [("Z", .cplx, none)],
-    guards := [],
-    values := [("R", .re "Z"), ("X", .im "Z")] },
-  { fn := "admittance", kind := "admittance", idDefault := none, nodesDefault := none,
-    params := [("Y", .cplx, none)],
-    guards := [],
-    values := [("G", .re "Y"), ("B", .im "Y")] },
-  { fn := "dc_voltage_source", kind := "dc_voltage_source", idDefault := none, nodesDefault := none,
-    params := [("V", .real, none), ("R", .real, some (.num (0 : Rat)))],
-    guards := [⟨"R", .lt, (0 : Rat), "ValueError"⟩],
-    values := [("V", .param "V"), ("R", .param "R"), ("w", .lit (0 : Rat)), ("phi", .lit (0 : Rat))] },
-  { fn := "ac_voltage_source", kind := "ac_voltage_source", idDefault := none, nodesDefault := none,
-    params := [("V", .real, none), ("R", .real, some (.num (0 : Rat))), ("w", .real, some (.num (0 : Rat))), ("phi", .real, some (.num (0 : Rat)))],
-    guards := [⟨"R", .lt, (0 : Rat), "ValueError"⟩, ⟨"w", .lt, (0 : Rat), "ValueError"⟩],
-    values := [("V", .param "V"), ("R", .param "R"), ("w", .param "w"), ("phi", .param "phi")] },
-  { fn := "complex_voltage_source", kind := "complex_voltage_source", idDefault := none, nodesDefault := none,
-    params := [("V", .cplx, none), ("Z", .cplx, some (.num (0 : Rat)))],
-    guards := [],
-    values := [("V_real", .re "V"), ("V_imag", .im "V"), ("R", .re "Z"), ("X", .im "Z")] },
-  { fn := "periodic_voltage_source", kind := "periodic_voltage_source", idDefault := none, nodesDefault := none,
-    params := [("wavetype", .str, none), ("V", .real, none), ("w", .real, none), ("phi", .real, some (.num (0 : Rat))), ("R", .real, some (.num (0 : Rat)))],
-    guards := [⟨"R", .lt, (0 : Rat), "ValueError"⟩, ⟨"w", .lt, (0 : Rat), "ValueError"⟩],
-    values := [("wavetype", .param "wavetype"), ("V", .param "V"), ("w", .param "w"), ("phi", .param "phi"), ("R", .param "R")] },
-  { fn := "dc_current_source", kind := "dc_current_source", idDefault := none, nodesDefault := none,
-    params := [("I", .real, none), ("G", .real, some (.num (0 : Rat)))],
-    guards := [⟨"G", .lt, (0 : Rat), "ValueError"⟩],
-    values := [("I", .param "I"), ("G", .param "G"), ("w", .lit (0 : Rat)), ("phi", .lit (0 : Rat))] },
-  { fn := "ac_current_source", kind := "ac_current_source", idDefault := none, nodesDefault := none,
-    params := [("I", .real, none), ("G", .real, some (.num (0 : Rat))), ("w", .real, some (.num (0 : Rat))), ("phi", .real, some (.num (0 : Rat)))],
-    guards := [⟨"G", .lt, (0 : Rat), "ValueError"⟩, ⟨"w", .lt, (0 : Rat), "ValueError"⟩],
-    values := [("I", .param "I"), ("G", .param "G"), ("w", .param "w"), ("phi", .param "phi")] },
-  { fn := "complex_current_source", kind := "complex_current_source", idDefault := none, nodesDefault := none,
-    params := [("I", .cplx, none), ("Y", .cplx, some (.num (0 : Rat)))],
-    guards := [],
-    values := [("I_real", .re "I"), ("I_imag", .im "I"), ("G", .re "Y"), ("B", .im "Y")] },
-  { fn := "periodic_current_source", kind := "periodic_current_source", idDefault := none, nodesDefault := none,
-    params := [("wavetype", .str, none), ("I", .real, none), ("w", .real, none), ("phi", .real, none), ("G", .real, some (.num (0 : Rat)))],
-    guards := [],
-    values := [("wavetype", .param "wavetype"), ("I", .param "I"), ("w", .param "w"), ("phi", .param "phi"), ("G", .param "G")] },
-  { fn := "lamp", kind := "lamp", idDefault := none, nodesDefault := none,
-    params := [("P", .real, none), ("V_ref", .real, none)],
-    guards := [⟨"P", .lt, (0 : Rat), "ValueError"⟩, ⟨"V_ref", .lt, (0 : Rat), "ValueError"⟩],
-    values := [("P", .param "P"), ("V_ref", .param "V_ref")] },
-  { fn := "resistive_load", kind := "resistive_load", idDefault := none, nodesDefault := none,
-    params := [("P", .real, none), ("V_ref", .real, none)],
-    guards := [⟨"P", .lt, (0 : Rat), "ValueError"⟩, ⟨"V_ref", .lt, (0 : Rat), "ValueError"⟩],
-    values := [("P", .param "P"), ("V_ref", .param "V_ref")] },
-  { fn := "short_circuit", kind := "short_circuit", idDefault := none, nodesDefault := none,
-    params := [],
-    guards := [],
-    values := [] },
-  { fn := "ground", kind := "ground", idDefault := some "gnd", nodesDefault := some ["0"],
-    params := [],
-    guards := [],
-    values := [] }]
-
-end CC.Gen
+-- translator refused: Circuit/components.py:97: constructor body is not guards followed by `return Component(…)`
+#eval (panic! "translator refused" : Unit)
+example : False := by decide
